@@ -6,6 +6,8 @@ CONSTANTS
   Truncs = {0, 1, 2}
   FixInvalid = TRUE
   FixTrunc = TRUE
+  FixFirstRun = TRUE
+  LSs = {0}
 CHECK_DEADLOCK FALSE
 INVARIANT InvSteps
 INVARIANT InvContig
